@@ -92,6 +92,10 @@ class DictProxy(dict):
         for key, value in kwargs.items():
             self.__setitem__(key, value)
 
+    def __ior__(self, iterable: KeyValuePairs) -> "DictProxy":  # type: ignore[override,misc]
+        self.update(iterable)
+        return self
+
     def copy(self) -> "DictProxy":
         return DictProxy(self.cfg, self.dict_field, self)
 
